@@ -236,6 +236,63 @@ func runC13(c *Ctx) {
 			}
 		}
 		mks := c.chanOrigins(ackv, 0, map[ssa.Value]bool{})
+		// every acknowledgement channel gets its handler: the registration of the DWA handler follows the
+		// creation of the channel on every path, in the same activation (a registration made once per client —
+		// inside sync.Once or any other closure — keeps feeding the first connection's channel)
+		for _, mk := range mks {
+			fn := mk.Parent()
+			rkey := fname(fn) + ":dwa-handler-per-channel"
+			var regs []ssa.CallInstruction
+			for _, g := range c.P.LibraryFuncs() {
+				if pkgOf(g).Path() != pkgSM {
+					continue
+				}
+				for _, ci := range flow.CallInstrs(g) {
+					if _, ok := isMuxRegistration(ci); ok && len(ci.Common().Args) >= 3 {
+						if k, ok := flow.ConstString(ci.Common().Args[1]); ok && k == "DWA" {
+							regs = append(regs, ci)
+						}
+					}
+				}
+			}
+			if len(regs) == 0 {
+				r.Undecided("R3", rkey, c.pos(mk), "no registration of a DWA handler found in package sm")
+				continue
+			}
+			bad := ""
+			var here []ssa.CallInstruction
+			for _, rg := range regs {
+				if rg.Parent() == fn {
+					here = append(here, rg)
+				} else if rg.Parent().Parent() != nil {
+					bad = "the DWA handler is registered inside a function literal (" + fname(rg.Parent()) + "): if that literal does not run for every handshake (sync.Once, a cached set-up) later connections create an acknowledgement channel that no handler feeds, and a peer that answers every DWR is closed"
+				}
+			}
+			if bad == "" && len(here) > 0 {
+				isReg := func(in ssa.Instruction) bool {
+					for _, rg := range here {
+						if ssa.Instruction(rg) == in {
+							return true
+						}
+					}
+					return false
+				}
+				isExit := func(in ssa.Instruction) bool {
+					if _, isGo := in.(*ssa.Go); isGo {
+						return true
+					}
+					return flow.IsReturn(in)
+				}
+				if p := flow.PathAvoiding(fn, mk, isExit, isReg); p != nil {
+					bad = "a path creates the acknowledgement channel and goes on without registering the DWA handler that feeds it"
+				}
+			}
+			if bad != "" {
+				r.Fail("R3", rkey, c.pos(mk), bad)
+			} else if len(here) > 0 {
+				r.Ok("R3", rkey, c.pos(mk), "the DWA handler is registered after the channel is made, on every path, in the same activation")
+			}
+		}
 		if ackv == nil || len(mks) == 0 {
 			r.Undecided("R2", key, c.fpos(dwrFn), "cannot find where the acknowledgement channel of the DWR sender is created")
 		} else {
